@@ -1198,6 +1198,12 @@ def r5(ctx, rep):
 def pending_truncate_consumers(ctx, rep):
     """C09 (iii): InMemory.pending_truncate is written only by Rollback::truncate and consumed only by writeout_start"""
     n = 0
+    TR, WS = "nomt::rollback::Rollback::truncate", "nomt::rollback::Rollback::writeout_start"
+    # the two functions with their private phases (`InMemory::truncate_recent` called only from truncate ..)
+    region = {TR: {TR}, WS: {WS}}
+    for e in (TR, WS):
+        if e in ctx.facts.bodies:
+            region[e] |= {x for x in owned_region(ctx.facts, e) if ctx.facts.bodies[x].kind != "Closure"}
     for body in ctx.facts.bodies.values():
         if body.crate != "nomt":
             continue
@@ -1215,13 +1221,14 @@ def pending_truncate_consumers(ctx, rep):
                         sites.append(("borrow_mut", s.get("ln")))
             for (k, ln) in sites:
                 n += 1
-                allowed = ("nomt::rollback::Rollback::truncate", "nomt::rollback::Rollback::writeout_start", "nomt::rollback::InMemory::new")
+                allowed = region[TR] | region[WS] | {"nomt::rollback::InMemory::new"}
                 rep.check(body.id in allowed, "O3", short(body.id), "pending_truncate|%s" % k, "InMemory.pending_truncate is modified at %s in %s (only Rollback::truncate sets it and writeout_start consumes it)" % (ln, short(body.id)), site=ln, detail="%s in %s" % (k, short(body.id)))
     # set by truncate, and CONSUMED (cleared) by writeout_start: a pending truncation that is applied but never cleared is
     # applied again by every later sync and cuts the records of later commits out of the log
     roles = {}
     for body in ctx.facts.bodies.values():
-        if body.id not in ("nomt::rollback::Rollback::truncate", "nomt::rollback::Rollback::writeout_start"):
+        owner = TR if body.id in region[TR] else WS if body.id in region[WS] else None
+        if owner is None:
             continue
         for b in range(body.n):
             if body.is_cleanup(b):
@@ -1229,13 +1236,13 @@ def pending_truncate_consumers(ctx, rep):
             for s in body.stmts(b):
                 if s["k"] == "assign":
                     if "pending_truncate" in fields_of(s["pl"]):
-                        roles.setdefault(body.id, set()).add("store")
+                        roles.setdefault(owner, set()).add("store")
                     if s["rv"]["k"] == "ref" and s["rv"].get("mut") and "pending_truncate" in fields_of(s["rv"]["pl"]):
                         # &mut handed to Option::take / replace / mem::take
                         dest = s["pl"]["l"]
                         for cb_, t_ in body.calls():
                             if any(a["k"] in ("move", "copy") and a["pl"]["l"] == dest for a in t_["args"][:1]) and (t_.get("callee") or "").rsplit("::", 1)[-1] in ("take", "replace"):
-                                roles.setdefault(body.id, set()).add("clear")
+                                roles.setdefault(owner, set()).add("clear")
     n += 1
     rep.check("store" in roles.get("nomt::rollback::Rollback::truncate", ()), "O3", "rollback::Rollback::truncate", "pending_truncate|set", "Rollback::truncate no longer records the pending truncation of the on-disk log", detail="in_memory.pending_truncate = Some(..)")
     n += 1
@@ -1819,6 +1826,49 @@ def o18(ctx, rep):
 # references, written before the switch-over.
 
 
+GET_NTH_POP = "nomt::beatree::allocator::free_list::CleanFreeList::get_nth_pop"
+
+
+def _pn_sources(facts, body, op, depth=0, seen=None):
+    """where a page number comes from: list of (ok, description, key)"""
+    import termination
+
+    out = []
+    if seen is None:
+        seen = set()
+    if depth > 3:
+        return [(False, "a value computed too deep in helpers to follow", "deep")]
+    for r in trace(body, op):
+        k = (body.id, r.kind, r.bb, str(r.what), r.fields)
+        if k in seen:
+            continue
+        seen.add(k)
+        what = str(r.what)
+        if r.kind == "agg" and r.obj is not None and what.startswith(("core::result::Result", "core::option::Option")):
+            continue  # trace goes on into the payload by itself
+        if r.kind in ("call", "via") and what == GET_NTH_POP:
+            out.append((True, "a page of the previous state's free list (get_nth_pop)", "get_nth_pop"))
+        elif r.kind == "agg" and what.endswith("PageNumber") and r.obj is not None:
+            if all(termination.derives_from(body, o, lambda x: "bump" in x.fields) for o in r.obj.get("ops", [])):
+                out.append((True, "a page number computed from the previous state's bump", "PageNumber"))
+            else:
+                out.append((False, "a PageNumber not computed from the bump", "PageNumber"))
+        elif r.kind == "agg" and r.obj is not None and what.startswith("nomt::") and r.obj.get("ops") and not r.fields:
+            # a value of a helper type of the crate (`Allocation::Reused(pn)`): look at what it carries
+            for o in r.obj["ops"]:
+                ty = body.op_ty(o) if hasattr(body, "op_ty") else ""
+                if "PageNumber" in (ty or "") or len(r.obj["ops"]) == 1:
+                    out += _pn_sources(facts, body, o, depth + 1, seen)
+        elif r.kind == "call" and what in facts.bodies and facts.bodies[what].crate == "nomt" and "PageNumber" in facts.bodies[what].local_ty(0):
+            cb = facts.bodies[what]
+            out += _pn_sources(facts, cb, {"k": "copy", "pl": {"l": 0}}, depth + 1, seen)
+        elif r.kind in ("via",):
+            continue
+        else:
+            out.append((False, "%s %s" % (r.kind, what), what.rsplit("::", 1)[-1]))
+    return out
+
+
 def w6(ctx, rep):
     facts = ctx.facts
     al = facts.body(ALLOCATE)
@@ -1831,27 +1881,10 @@ def w6(ctx, rep):
         for s_ in al.stmts(b):
             if not (s_["k"] == "assign" and s_["pl"]["l"] == 0 and not s_["pl"].get("p") and s_["rv"]["k"] == "agg" and s_["rv"].get("name") == "core::result::Result" and s_["rv"].get("variant") == "Ok"):
                 continue
-            for r in trace(al, s_["rv"]["ops"][0]):
+            for (ok, why, key) in _pn_sources(facts, al, s_["rv"]["ops"][0]):
+                if (ok, why, key) in seen_src:
+                    continue
+                seen_src.add((ok, why, key))
                 n += 1
-                if r.kind == "agg" and r.obj is not None and not r.fields and str(r.what).startswith("core::result::Result"):
-                    n -= 1
-                    continue
-                ok, why = False, "%s %s" % (r.kind, r.what)
-                if r.kind in ("call", "via") and str(r.what).endswith("CleanFreeList::get_nth_pop"):
-                    ok, why = True, "a page of the previous state's free list (get_nth_pop)"
-                elif r.kind == "agg" and str(r.what).endswith("PageNumber") and r.obj is not None:
-                    import termination
-
-                    if all(termination.derives_from(al, o, lambda x: "bump" in x.fields) for o in r.obj.get("ops", [])):
-                        ok, why = True, "a page number computed from the previous state's bump"
-                    else:
-                        why = "a PageNumber not computed from the bump"
-                elif r.kind == "call" and str(r.what) in facts.bodies and facts.bodies[str(r.what)].local_ty(0).endswith("PageNumber") is False:
-                    why = "the result of %s" % short(str(r.what))
-                key = (r.kind, str(r.what), why)
-                if key in seen_src:
-                    n -= 1
-                    continue
-                seen_src.add(key)
-                rep.check(ok, "W6", fn, "source=%s" % (str(r.what).rsplit("::", 1)[-1]), "SyncAllocator::allocate can hand out %s at %s: neither a page of the previous state's free list nor a page at or beyond its bump - a page the old image may still reference would be written before the switch-over" % (why, s_.get("ln")), site=s_.get("ln"), detail=why)
+                rep.check(ok, "W6", fn, "source=%s" % key, "SyncAllocator::allocate can hand out %s at %s: neither a page of the previous state's free list nor a page at or beyond its bump - a page the old image may still reference would be written before the switch-over" % (why, s_.get("ln")), site=s_.get("ln"), detail=why)
     return n
